@@ -44,13 +44,13 @@ CHECKS = {
             "4 C12", "Borrow<Q> agreement is std's law (eqv through &Q); "),
     "C13": ("Iter / IntoIter / Drain delegate next / next_back / len to the stub iterators (ghost view = remaining entries); every type declaring ExactSizeIterator must have size_hint == (remaining, Some(remaining)), the core default body being synthesized (R9) where not overridden; optional contracts (what std's default does) for overrides of nth / nth_back / count / last that the source may introduce; the source queue of append is emptied.",
             "4 C13", "std adaptors over these iterators are trusted; "),
-    "C14": ("eq of Store / PriorityQueue / DoublePriorityQueue returns exactly IndexMap's order-insensitive map equality (map_eq); Clone is #[derive]d, so there is no function body to put a contract on: generated structural obligations (the three structs derive Clone, no manual impl Clone, no field type shares state) stand in, and a hand-written Clone makes the check undecided with the bounded history search (clone / clone_from against the source) deciding.",
+    "C14": ("eq of Store / PriorityQueue / DoublePriorityQueue returns exactly IndexMap's order-insensitive map equality (map_eq); Clone is #[derive]d, so there is no function body to put a contract on: generated structural obligations (the three structs derive Clone, no manual impl Clone, no field type shares state) stand in, and a hand-written Clone makes the check undecided with the bounded history search (clone / clone_from against the source) deciding. 'Behaves identically' is a relation between two runs: every result is specified over a view without capacities, plus one generated obligation per function outside the capacity API (no capacity read); not met => undecided, the search compares twins that differ in capacity only.",
             "4 C14", "derive(Clone) semantics assumed; reflexivity / symmetry / transitivity are IndexMap's; "),
     "C15": ("visit_seq against an arbitrary SeqAccess: Ok(store) => wf and identity tables, no panic; serialize emits the map entries in slot order with the size as length hint (ghost trace); queue-level deserialize re-establishes order.",
             "4 C15", "serde driver (deserialize_seq -> visit_seq) assumed; "),
     "C16": ("posts of Store::drain / clear and the queue wrappers: tables and size cleared before the map's drain is handed out, whose stub contract leaves the map empty however the iterator is consumed; result is the abstract state of a fresh queue.",
             "4 C16", "indexmap drain leak behaviour assumed; "),
-    "C17": ("frame posts of with_capacity*, reserve, reserve_exact, try_reserve, try_reserve_exact, shrink_to_fit (map view, both tables, size unchanged) plus the capacity relation; try_reserve has no panic obligation left; TryReserveError conversions.",
+    "C17": ("frame posts of with_capacity*, reserve, reserve_exact, try_reserve, try_reserve_exact, shrink_to_fit (map view, both tables, size unchanged) plus the capacity relation; try_reserve has no panic obligation left; TryReserveError conversions; one generated obligation per function outside the capacity API: no capacity is read (a later operation cannot depend on one); not met => undecided, the bounded search compares twins that differ in capacity only.",
             "4 C17", ""),
     "C18": ("every obligation is discharged with H an uninterpreted type parameter that is only forwarded to IndexMap::with_capacity_and_hasher; one generated audit obligation per function: no call into the hasher (BuildHasher / Hasher methods, .hasher(), hash_one) -- all hashing is IndexMap's; constructor posts; the append model does not depend on capacities.",
             "4 C18", "stub contracts do not mention the hasher; "),
